@@ -506,7 +506,9 @@ impl Terminal for UnixTerminal {
                                 self.events_queue
                                     .push_back(TerminalEvent::Resize(self.size()?));
                             } else {
-                                self.write_all(GET_TERM_SIZE)?;
+                                // request must not be lost if frames are dropped,
+                                // otherwise resize would never be reported
+                                self.write_queue.write_front(GET_TERM_SIZE);
                             }
                         }
                         SIGTERM | SIGINT | SIGQUIT => {
